@@ -1151,3 +1151,29 @@ Section FormalEquivariance.
     rewrite ty_rel, bond_order_rel, phosphate_rel by exact Hi. reflexivity.
   Qed.
 End FormalEquivariance.
+
+(* ---- the radius rule for arbitrary (primary, secondary) tables ------------- *)
+
+Lemma radius_of_from t : radius_of t = radius_from ZAP9 BONDI t.
+Proof. reflexivity. Qed.
+
+(* primary's entry when it has one (typed entry before element entry), else
+   secondary's by the same rule; None (KeyError) iff neither table has either
+   key; what the secondary table holds is irrelevant for atoms the primary covers *)
+Theorem radius_rule (p s : list (string * Z)) (t : string) :
+  let e := upper (before_dot t) in
+  (forall r, lookup t p = Some r -> radius_from p s t = Some r) /\
+  (lookup t p = None -> forall r, lookup e p = Some r -> radius_from p s t = Some r) /\
+  (lookup t p = None -> lookup e p = None -> radius_from p s t = radius_from s [] t) /\
+  (radius_from p s t = None <->
+     lookup t p = None /\ lookup e p = None /\ lookup t s = None /\ lookup e s = None) /\
+  (forall s', (lookup t p <> None \/ lookup e p <> None) -> radius_from p s t = radius_from p s' t).
+Proof.
+  cbv zeta. unfold radius_from. cbn [lookup].
+  destruct (lookup t p) as [r1|]; destruct (lookup (upper (before_dot t)) p) as [r2|];
+    destruct (lookup t s) as [r3|]; destruct (lookup (upper (before_dot t)) s) as [r4|];
+    repeat split; intros; try congruence; try tauto;
+    try match goal with H : _ /\ _ |- _ => decompose [and] H; congruence end;
+    try match goal with H : _ \/ _ |- _ => destruct H; congruence end.
+Qed.
+
